@@ -454,6 +454,7 @@ def attach_run(desc, attach):
     sink = []
     stdout = io.StringIO()
     agent = None
+    work_ns, _work_path = rig.load_program('c01attach', 'def work(n):\n    m = n + 1\n    return m\n')
     for n in names:
         lg = logging.getLogger(n)
         lg.handlers[:] = []
@@ -481,8 +482,15 @@ def attach_run(desc, attach):
                                        'handlers': {'h': {'()': lambda: ListHandler('dict', sink)}},
                                        'root': {'handlers': ['h'], 'level': desc['level'] if lvl is not None else 'WARNING'}})
 
+    agent_log = io.StringIO()
+
     def start_agent():
-        return deep.start({'SERVICE_URL': 'fake:1', 'POLL_TIMER': 3600, 'APP_ROOT': '/nonexistent-app-root'})
+        d = deep.start({'SERVICE_URL': 'fake:1', 'POLL_TIMER': 3600, 'APP_ROOT': '/nonexistent-app-root'})
+        # what the agent writes with its own logger's own handler (documented: to stdout) is not the application's output
+        for h in logging.getLogger('deep').handlers:
+            if getattr(h, 'deep_default', False) and hasattr(h, 'stream'):
+                h.stream = agent_log
+        return d
     try:
         with contextlib.redirect_stdout(stdout):
             if desc['order'] == 'configure-then-attach':
@@ -500,6 +508,14 @@ def attach_run(desc, attach):
                 lg.warning('%s warning', n)
                 lg.error('%s error', n)
             print('application output')
+            # a tracepoint whose watches fail, hit by the application: what the agent has to say about that is the agent's business
+            if agent is not None:
+                import time
+                agent.register_tracepoint('c01attach.py', 2, {'fire_count': '-1', 'fire_period': '0'}, ['undefined_name', '1/0'])
+                t0 = time.time()
+                while not agent.trigger_handler._tp_config and time.time() - t0 < 10:
+                    time.sleep(0.002)
+            work_ns['work'](1)
             if agent is not None:
                 agent.shutdown()
                 agent = None
